@@ -140,3 +140,45 @@ def r21e(ctx):
                         else:
                             ctx.bad(cid, mod.loc(b), f"`{ast.unparse(node)[:90]}` tests the label `{ast.unparse(b)}` for truth: a Series / index named 0, '' or False is treated as unnamed and the other branch is taken (compare with `is None` / `is not None`)")
     ctx.ok("labels-tested-for-truth", "", f"{n} truthiness tests of a `.name` found, all covered by reasoned exceptions" if n else "no truthiness test of a label")
+
+
+# ---------------------------------------------------------------------------------------------
+# R21f
+# ---------------------------------------------------------------------------------------------
+
+
+@rule(
+    "R21f",
+    ["C04", "C02", "C01"],
+    """AN AXIS THAT IS COMPARED WITH A NUMBER HAS BEEN NORMALISED TO A NUMBER: the public methods accept axis as 0 / 1 / "index" / "columns";
+    `_validate_axis(axis)` maps the names to numbers, `_validate_axis(axis, numeric_axis=False)` only validates. A method that branches
+    on `axis == 1` / `axis == 0` / `axis in (0, 1)` after the non-normalising call takes the wrong branch for axis="columns" / "index" -
+    DataFrame.clip(axis="columns") then goes down the partitionwise path that prunes columns and aligns nothing.""",
+)
+def r21f(ctx):
+    from sa import flow
+
+    model = ctx.model
+    n = 0
+    for mod, cls, fn in model.all_functions():
+        defs = None
+        for cmp_ in (x for x in ast.walk(fn) if isinstance(x, ast.Compare) and isinstance(x.left, ast.Name)):
+            nums = [c for c in cmp_.comparators if (isinstance(c, ast.Constant) and isinstance(c.value, int) and not isinstance(c.value, bool)) or (isinstance(c, (ast.Tuple, ast.List, ast.Set)) and c.elts and all(isinstance(e, ast.Constant) and isinstance(e.value, int) and not isinstance(e.value, bool) for e in c.elts))]
+            if not nums:
+                continue
+            var = cmp_.left.id
+            if defs is None:
+                defs = flow.Defs(fn)
+            rd = [d for d in defs.reaching(var, cmp_) if d.value is not None]
+            calls = [d.value for d in rd if isinstance(d.value, ast.Call) and isinstance(d.value.func, ast.Attribute) and d.value.func.attr == "_validate_axis"]
+            if not calls:
+                continue
+            n += 1
+            fq = (f"{mod.name.split('.', 1)[-1]}.{cls.name}.{fn.name}" if cls is not None else f"{mod.name.split('.', 1)[-1]}.{fn.name}")
+            cid = f"{fq}:axis-compared-with-number:{ast.unparse(cmp_)}"
+            raw = [c for c in calls if any(kw.arg == "numeric_axis" and isinstance(kw.value, ast.Constant) and kw.value.value is False for kw in c.keywords) or (len(c.args) >= 2 and isinstance(c.args[1], ast.Constant) and c.args[1].value is False)]
+            if raw:
+                ctx.bad(cid, mod.loc(cmp_), f"`{ast.unparse(cmp_)}` compares `{var}` with a number although it comes from `{ast.unparse(raw[0])}`, which keeps the spellings \"index\" / \"columns\": for those the comparison is False and the method takes the branch meant for the other axis")
+            else:
+                ctx.ok(cid, mod.loc(cmp_), "the axis was normalised to a number before the comparison")
+    ctx.floor("numeric comparisons of a validated axis", n, 5)
